@@ -25,6 +25,13 @@ PropsOk(n) ==
   /\ n.calls = (IF nn.k = "JumpLink" /\ nn.rd = 1 THEN nn.lab ELSE "")
   /\ n.jumps = (IF nn.k = "Branch" \/ (nn.k = "JumpLink" /\ nn.rd # 1) THEN nn.lab ELSE "")
   /\ (nn.op # "uret" => (n.ret = (nn.k = "JumpLinkR" /\ nn.rd = 0 /\ nn.rs1 = 1 /\ nn.imm = 0)))
+  \* the sets the dataflow analyses use: what is overwritten (all caller-saved registers at a call), what is read
+  \* (a return reads the callee-saved registers: that is how "restored" is checked)
+  /\ (IF nn.k = "JumpLink" /\ nn.rd = 1       \* (whether ra itself is in the set is left open: the passes treat it apart)
+        THEN TempRegs \cup ArgRegs \subseteq SeqToSet(n.kill) /\ SeqToSet(n.kill) \subseteq CallerSaved
+        ELSE SeqToSet(n.kill) = ArchWrites(nn))
+  /\ (nn.op # "uret" /\ ~(nn.k = "JumpLinkR" /\ nn.rd = 0 /\ nn.rs1 = 1 /\ nn.imm = 0)
+        => SeqToSet(n.gen) = ArchReads(nn))
   /\ n.ecall = (nn.op = "ecall")
   /\ n.addrof = (IF nn.k = "LoadAddr" THEN nn.lab ELSE "")
 
